@@ -51,6 +51,7 @@ package dockerlog
 //@   ensures[header-read-error-surfaces] len(readerData(i.rd)) - old(readerPos(i.rd)) < 8 && readerFails(i.rd) ==> !ret0 && ret1 != nil
 //@   ensures[cut-inside-body-is-an-error] len(readerData(i.rd)) - old(readerPos(i.rd)) >= 8 && len(readerData(i.rd)) - old(readerPos(i.rd)) - 8 < be32(readerData(i.rd), old(readerPos(i.rd))+4) ==> !ret0 && ret1 != nil
 //@   ensures[daemon-error-frame-is-an-error] len(readerData(i.rd)) - old(readerPos(i.rd)) - 8 >= be32(readerData(i.rd), old(readerPos(i.rd))+4) && len(readerData(i.rd)) - old(readerPos(i.rd)) >= 8 && readerData(i.rd)[old(readerPos(i.rd))] == 3 ==> !ret0 && ret1 != nil
+//@   ensures[unknown-stream-type-is-an-error] len(readerData(i.rd)) - old(readerPos(i.rd)) - 8 >= be32(readerData(i.rd), old(readerPos(i.rd))+4) && len(readerData(i.rd)) - old(readerPos(i.rd)) >= 8 && readerData(i.rd)[old(readerPos(i.rd))] > 3 ==> !ret0 && ret1 != nil
 //@   ensures[payload-is-the-frame-body] pl_called ==> pl_a1 == readerData(i.rd)[old(readerPos(i.rd))+8 : old(readerPos(i.rd))+8+be32(readerData(i.rd), old(readerPos(i.rd))+4)] && pl_a2 == r
 //@   ensures[consumes-exactly-one-frame] pl_called ==> readerPos(i.rd) == old(readerPos(i.rd)) + 8 + be32(readerData(i.rd), old(readerPos(i.rd))+4)
 //@   ensures[record-iff-line-parsed] ret0 == (pl_called && pl_r0 == nil) && (ret0 ==> ret1 == nil) && (pl_called && pl_r0 != nil ==> ret1 != nil)
